@@ -132,7 +132,15 @@ func runGoScenario(m map[string]string) string {
 	started := make(chan struct{})
 	release := make(chan struct{})
 	finished := make(chan struct{})
+	sameCtx := "x"
 	body := func(fctx context.Context) (err error) {
+		// the observed function gets the caller's context itself: always for a fallback, and for a run function when the
+		// circuit derives no timeout context
+		if fctx == ctx {
+			sameCtx = "1"
+		} else {
+			sameCtx = "0"
+		}
 		close(started)
 		defer close(finished)
 		<-release
@@ -272,7 +280,11 @@ func runGoScenario(m map[string]string) string {
 		startedFlag = "1"
 	case <-time.After(300 * time.Millisecond):
 	}
-	return fmt.Sprintf("caller=%s lost=%s prompt=%s leak=%s started=%s", caller, lostStr, b01(prompt), leak, startedFlag)
+	same := "x"
+	if startedFlag == "1" {
+		same = sameCtx // written before close(started)
+	}
+	return fmt.Sprintf("caller=%s lost=%s prompt=%s leak=%s started=%s same=%s", caller, lostStr, b01(prompt), leak, startedFlag, same)
 }
 
 func callerIsFn(err error, isPanic bool, fs funcSpec) bool {
